@@ -720,7 +720,9 @@ def _misc_record(rng, profile):
     """A logical record without interpreted internal format (operator input, comment, picture, table dump ...)."""
     ty = rng.choice(profile['misc_types'])
     k = rng.random()
-    payload = b'' if k < 0.15 else bytes(rng.randrange(256) for _ in range(rng.randrange(1, 40))) if k < 0.6 else b'comment ' * rng.randrange(1, 9)
+    payload = (b'' if k < 0.15 else bytes(rng.randrange(256) for _ in range(rng.randrange(1, 40))) if k < 0.5
+               else rng.choice([b'CONS <A&B> "x" \'y\' 1<2 & 3>2 END', b'<!-- dump --> &amp; ]]>', b'a<b', b'R&D ']) * rng.randrange(1, 4) if k < 0.7
+               else b'comment ' * rng.randrange(1, 9))
     return ('misc', ty, None, lr_misc(ty, payload), None, None, None)
 
 
